@@ -115,6 +115,10 @@ func (f *Field[T]) IsZero(a *Element[T]) frontend.Variable {
 	// so we check that the reduced value limbs are either all zeros or
 	// correspond to the modulus limbs.
 	ca := f.Reduce(a)
+	// the reduction of a constant multiple of the modulus is the zero constant (no limbs)
+	if len(ca.Limbs) == 0 {
+		return 1
+	}
 	p := f.Modulus()
 
 	// we use two approaches for checking if the element is exactly zero. The
